@@ -64,7 +64,13 @@ struct Scenario {
   const char *const *probe_names;
   // called once per process before any run of this scenario (may be nullptr)
   void (*process_init)();
+  // optional: reference data for the oracle, computed by real code in a COLD forked child before the run (so that hidden
+  // process-global state of the code under test can neither leak from the reference computation into the run nor the other way);
+  // scenarios that set it are always executed one run per freshly forked child
+  void (*reference)(const Program &prog, std::vector<int64_t> &out) = nullptr;
 };
+
+const std::vector<int64_t> &reference_data();
 
 const Program &current_program();
 const Scenario *find_scenario(const std::string &name);
